@@ -573,7 +573,7 @@ func suiteCompare(o *Out, thorough bool, seed int64) {
 	}
 	// neighbours: two numbers one unit apart in their last digit, for every number of digits and a range of exponents
 	// (an approximate comparison - through binary floating point, say - merges exactly such pairs)
-	for d := 1; d <= 34; d++ {
+	for d := 1; d <= 40; d++ { // beyond 34 digits: literals and numbers handed in by the caller are not rounded
 		reps := 6
 		if d >= 14 && d <= 19 { // around the precision of binary64
 			reps = 90
@@ -906,6 +906,10 @@ func suiteMisuse(o *Out, thorough bool, seed int64) {
 		for _, nm := range []string{"rowsU", "arrU", "mapU", "rowsE", "rowsI", "rowsS", "rowsN", "nestU", "mapsU", "ptrsU", "rowU", "arr2U"} {
 			cyc = append(cyc, "'' + "+nm, "toString("+nm+")", "h("+nm+")", "join(["+nm+"], ',')", "len("+nm+")", "'x' < "+nm, "'x' == "+nm)
 		}
+		for _, n := range []string{"100", "4095", "4096", "4097", "5000", "70000"} {
+			cyc = append(cyc, "join(mapToArr(rows"+n+", 'name'), ',')", "hm(rows"+n+")", "join(strs"+n+", ',')", "hs(strs"+n+")", "includes(strs"+n+", 'x')", "hi(nums"+n+")", "hv(strs"+n+"...)",
+				"len(join(good"+n+", ','))", "hs(good"+n+")", "hv(good"+n+"...)", "max(nums"+n+"...)")
+		}
 		type pr struct{ out, errText string }
 		res := make([]pr, len(cyc))
 		var wg sync.WaitGroup
@@ -1216,6 +1220,16 @@ func sufficiencyOracle(o *Out, line, text, obs string) {
 			"a": map[string]interface{}{"b": map[string]interface{}{"c": 1}, "f": hs[1], "x": 2}, "b": map[string]interface{}{"x": "bx"},
 			"c": 3, "f": hs[1], "g": map[string]interface{}{"h": hs[1]}, "$c": 10, "$d": "d", "extra": 99, "len2": 5,
 		}
+		// entries whose KEY is a dotted path (rows often arrive flat): no formula can name them - an identifier has
+		// no dot - so they are never among the reported top-level names and evaluation may not depend on them
+		for _, k := range []string{"a.b", "a.b.c", "a.x", "a.nope", "a.f", "b.x", "b.y", "c.d", "g.h", "g.nope", "nope.k", "$c.x", "extra.k", "a.b.c.d", "a!.b", "this.a", "this.c"} {
+			full[k] = "flat:" + k
+		}
+		for _, f := range fields {
+			if strings.Contains(f, ".") {
+				full[f] = "flat:" + f
+			}
+		}
 		m := map[string]interface{}{}
 		for k, v := range full {
 			if !restrict || keep[k] {
@@ -1456,6 +1470,13 @@ func suiteNames(o *Out, thorough bool, seed int64) {
 	o.Notes = append(o.Notes, fmt.Sprintf("exhaustive: every dotted path of depth 0..%d over %d roots and a %d-key universe with . and !. at every position, against a nested data map; also each compared with null", depth, len(roots), len(keys)))
 	for _, d := range []string{"-", "O0"} {
 		for _, t := range []string{"a", "a.b", "a.b.c", "a!.b", "this", "this.a", "this.a.b", "len", "len.x", "abs", "a == null", "a === null", "this == null"} {
+			emitEval(o, t, 0, "-", d, true)
+		}
+	}
+	// keys that look like paths (flat rows): `a.b` is member b of entry a, never the entry called "a.b"
+	{
+		d := wmap("a", wmap("x", "Ii:1", "b.c", "Ii:7"), "a.b", "Ii:2", "a.b.c", "Ii:3", "a.x", "Ii:4", "n", "N", "n.k", "Ii:5", "this.a", "Ii:6", "a!.b", "Ii:8", "s", ws("str"), "s.len", "Ii:9", "len.x", "Ii:10", "$l.k", "Ii:11", ".", "Ii:12", "a.", "Ii:13")
+		for _, t := range []string{"a.b", "a.b.c", "a.x", "a!.b", "n.k", "n!.k", "this.a.b", "this.a.x", "a.b ?? 'none'", "a.b == null", "[a.b, a.x, n.k]", "s.len", "len.x", "$l = a, $l.k", "$l = a, $l.x", "a.nope.k", "toString(a.b.c)", "typeof a.b", "a.b.c ?? a.x", "this['a.b']"} {
 			emitEval(o, t, 0, "-", d, true)
 		}
 	}
